@@ -53,3 +53,10 @@ package dynamiccache
 // not be bound to the context of the Watch call that happened to start it
 //@ func package-operator.run/internal/dynamiccache.(*InformerMap).addInformerToMap
 //@   at createListWatch#1 assert [C12] arg0 == ctxBackground()
+
+// every event source a controller starts is registered as a handler of its own: registrations are only ever added,
+// the list grows by exactly the new one (every informer started later attaches all of them; that the earlier entries keep their
+// contents is not claimed: the solvers do not discharge the element-wise frame of append on struct elements in time)
+//@ func package-operator.run/internal/dynamiccache.(cacheSettings[Request]).Start[sigs.k8s.io/controller-runtime/pkg/reconcile.Request]
+//@   ensures [C12] result == nil ==> len(e.source.handlers) == old(len(e.source.handlers)) + 1
+//@   ensures [C12] result == nil ==> e.source.handlers[len(e.source.handlers) - 1].handler == e.handler && e.source.handlers[len(e.source.handlers) - 1].queue == queue
